@@ -699,6 +699,21 @@ pub fn gen_read_scn(id: &str, rng: &Rng, tier: Tier) -> ReadScn {
                 ops = o;
                 profile.push_str("/refused_then_resumed");
             }
+            if fmt == Fmt::Fastq && n > 0 && !profile.contains("refused") && rng.chance(1, 8) {
+                // the error is reached (again) after a seek back to a record position - from any
+                // state, also one in which a record-set read has already met the defective group and
+                // deferred its error: the coordinates reported must be the same true ones
+                let k = rng.range(0, n + 1);
+                let mut o: Vec<Op> = (0..k).map(|_| match rng.below(4) { 0 | 1 => Op::Next, 2 => Op::ReadSetExact(0, rng.range(2, 4)), _ => Op::ReadSet(0) }).collect();
+                o.push(Op::SeekRec(rng.below(n as u64) as usize));
+                if rng.chance(1, 2) {
+                    o.extend(ops_next_to_end(n));
+                } else {
+                    o.extend(vec![Op::ReadSet(0); n + 2]);
+                }
+                ops = o;
+                profile.push_str("/after_seek");
+            }
             ReadScn { fmt, input, cfgs: vec![cfg], ops, mon: Monitors::default(), profile }
         }
         other => panic!("gen_read_scn: unknown id {}", other),
